@@ -253,7 +253,10 @@ func (t *tokenizer) skipTimestamp() (int, error) {
 	}
 	if c == 'T' {
 		// yyyyT
-		return t.read()
+		if c, err = t.read(); err != nil {
+			return 0, err
+		}
+		return t.skipTimestampFinish(c)
 	}
 	if c != '-' {
 		return 0, t.invalidChar(c)
@@ -266,7 +269,10 @@ func (t *tokenizer) skipTimestamp() (int, error) {
 	}
 	if c == 'T' {
 		// yyyy-mmT
-		return t.read()
+		if c, err = t.read(); err != nil {
+			return 0, err
+		}
+		return t.skipTimestampFinish(c)
 	}
 	if c != '-' {
 		return 0, t.invalidChar(c)
